@@ -35,10 +35,18 @@
 //!          parser overflows its stack on a single list literal of 10^5 elements
 //!   "kmvk": in = [k, [[key, elem]..], parts] approx_distinct_count_per_key(k);
 //!          out = ["ok", [[[key, estimate]..] sorted, [rank per pair..]]]
+//! compact streams (big cases): segs = [[key, start, step, count, modulus]..]; segment = the
+//!          integers (start + step*j) mod modulus, j = 0..count (modulus 0: none), under `key`
+//!   "kh":  in = [k, segs, parts, fan]  every public entry point that builds a KMV sketch on the
+//!          same u64 data; out = ["ok", [adc, cg, cgl, adck, cv, gbkl, cvl, twin, dst, dstk]]
+//!          (see Corr/C15.v check_kh); no ranks travel: Coq hashes the elements itself
+//!   "qh":  in = [comb, c, segs, qs, parts, fan, den, vtype]  every public entry point that builds
+//!          a t-digest on the same data (value = integer / den as vtype f64 | f32 | i32 | u16);
+//!          comb = aq | five | pct | median | med | meddef; out = ["ok", [cg, cgl, cv, gbkl, cvl]]
 use ibv::{Emitter, SplitMix64, Tier, drive, ok};
 use ironbeam::collection::{CombineFn, LiftableCombiner};
 use ironbeam::combiners::{ApproxMedian, ApproxQuantiles, KMVApproxDistinctCount, TDigest};
-use ironbeam::{Pipeline, from_vec};
+use ironbeam::{PCollection, Pipeline, RFBound, from_vec};
 use serde_json::{Value, json};
 use std::hash::{DefaultHasher, Hash, Hasher};
 
@@ -356,8 +364,166 @@ fn run(kind: &str, input: &Value) -> Value {
             let rj: Vec<Value> = res.iter().map(|&(k, e)| json!([k, fj(e)])).collect();
             ok(json!([rj, ranks]))
         }
+        "kh" => run_kh(input),
+        "qh" => run_qh(input),
         _ => json!(["bad-kind"]),
     }
+}
+
+fn collect<T: RFBound>(pc: PCollection<T>, parts: usize) -> Vec<T> {
+    if parts == 0 { pc.collect_seq() } else { pc.collect_par(None, Some(parts)) }.expect("collect")
+}
+
+/// expand [[key, start, step, count, modulus]..] into (key, integers) per segment
+fn seg_groups(v: &Value) -> Vec<(i64, Vec<i64>)> {
+    v.as_array()
+        .expect("segs")
+        .iter()
+        .map(|s| {
+            let key = s[0].as_i64().unwrap();
+            let (start, step) = (i128::from(s[1].as_i64().unwrap()), i128::from(s[2].as_i64().unwrap()));
+            let count = s[3].as_u64().unwrap();
+            let m = i128::from(s[4].as_i64().unwrap());
+            let vals = (0..count)
+                .map(|j| {
+                    let e = start + step * i128::from(j);
+                    (if m == 0 { e } else { e.rem_euclid(m) }) as i64
+                })
+                .collect();
+            (key, vals)
+        })
+        .collect()
+}
+
+fn kests(mut res: Vec<(i64, f64)>) -> Value {
+    res.sort_by_key(|kv| kv.0);
+    Value::Array(res.iter().map(|&(k, e)| json!([k, fj(e)])).collect())
+}
+
+fn one(res: Vec<f64>) -> f64 {
+    assert!(res.len() == 1, "not one output");
+    res[0]
+}
+
+fn run_kh(input: &Value) -> Value {
+    let k = input[0].as_u64().unwrap() as usize;
+    let groups: Vec<(i64, Vec<u64>)> = seg_groups(&input[1])
+        .into_iter()
+        .map(|(key, es)| (key, es.into_iter().map(|e| u64::try_from(e).expect("element >= 0")).collect()))
+        .collect();
+    let parts = input[2].as_u64().unwrap() as usize;
+    let fan = input[3].as_u64().unwrap() as usize;
+    let fanout = if fan == 0 { None } else { Some(fan) };
+    let pairs: Vec<(i64, u64)> =
+        groups.iter().flat_map(|(key, es)| es.iter().map(move |&e| (*key, e))).collect();
+    let elems: Vec<u64> = pairs.iter().map(|kv| kv.1).collect();
+    let mut keys: Vec<i64> = groups.iter().map(|g| g.0).collect();
+    keys.sort_unstable();
+    keys.dedup();
+    let p = Pipeline::default();
+    let adc = one(collect(from_vec(&p, elems.clone()).approx_distinct_count(k), parts));
+    let cg = one(collect(
+        from_vec(&p, elems.clone()).combine_globally(KMVApproxDistinctCount::<u64>::new(k), fanout),
+        parts,
+    ));
+    let cgl = one(collect(
+        from_vec(&p, elems.clone()).combine_globally_lifted(KMVApproxDistinctCount::<u64>::new(k), fanout),
+        parts,
+    ));
+    let adck = collect(from_vec(&p, pairs.clone()).approx_distinct_count_per_key(k), parts);
+    let cv = collect(from_vec(&p, pairs.clone()).combine_values(KMVApproxDistinctCount::<u64>::new(k)), parts);
+    let gbkl = collect(
+        from_vec(&p, pairs.clone()).group_by_key().combine_values_lifted(KMVApproxDistinctCount::<u64>::new(k)),
+        parts,
+    );
+    let cvl = collect(
+        from_vec(&p, groups.clone()).combine_values_lifted(KMVApproxDistinctCount::<u64>::new(k)),
+        parts,
+    );
+    let twin: Vec<(i64, f64)> = keys
+        .iter()
+        .map(|&key| {
+            let mine: Vec<u64> = pairs.iter().filter(|kv| kv.0 == key).map(|kv| kv.1).collect();
+            (key, one(collect(from_vec(&p, mine).approx_distinct_count(k), parts)))
+        })
+        .collect();
+    let dst = collect(from_vec(&p, elems).distinct(), parts).len();
+    let dk = collect(from_vec(&p, pairs).distinct_per_key(), parts);
+    let dstk: Vec<Value> =
+        keys.iter().map(|&key| json!([key, dk.iter().filter(|kv| kv.0 == key).count()])).collect();
+    ok(json!([fj(adc), fj(cg), fj(cgl), kests(adck), kests(cv), kests(gbkl), kests(cvl), kests(twin), dst, dstk]))
+}
+
+/// the five pipeline entry points for one t-digest combiner over values of type V
+fn qh_entries<V, C, O>(
+    comb: &C,
+    groups: &[(i64, Vec<V>)],
+    parts: usize,
+    fanout: Option<usize>,
+    to_list: &dyn Fn(O) -> Vec<f64>,
+) -> Value
+where
+    V: RFBound + Into<f64>,
+    O: RFBound,
+    C: CombineFn<V, TDigest, O> + LiftableCombiner<V, TDigest, O> + Clone + 'static,
+{
+    let pairs: Vec<(i64, V)> =
+        groups.iter().flat_map(|(key, vs)| vs.iter().map(move |v| (*key, v.clone()))).collect();
+    let vals: Vec<V> = pairs.iter().map(|kv| kv.1.clone()).collect();
+    let p = Pipeline::default();
+    let glob = |res: Vec<O>| -> Value {
+        assert!(res.len() == 1, "not one output");
+        fjs(&to_list(res.into_iter().next().unwrap()))
+    };
+    let keyed = |mut res: Vec<(i64, O)>| -> Value {
+        res.sort_by_key(|kv| kv.0);
+        Value::Array(res.into_iter().map(|(k, o)| json!([k, fjs(&to_list(o))])).collect())
+    };
+    let cg = glob(collect(from_vec(&p, vals.clone()).combine_globally(comb.clone(), fanout), parts));
+    let cgl = glob(collect(from_vec(&p, vals).combine_globally_lifted(comb.clone(), fanout), parts));
+    let cv = keyed(collect(from_vec(&p, pairs.clone()).combine_values(comb.clone()), parts));
+    let gbkl = keyed(collect(from_vec(&p, pairs).group_by_key().combine_values_lifted(comb.clone()), parts));
+    let cvl = keyed(collect(from_vec(&p, groups.to_vec()).combine_values_lifted(comb.clone()), parts));
+    json!([cg, cgl, cv, gbkl, cvl])
+}
+
+fn qh_typed<V>(input: &Value, conv: &dyn Fn(i64, f64) -> V) -> Value
+where
+    V: RFBound + Into<f64>,
+{
+    let comb = input[0].as_str().unwrap();
+    let c = pf(&input[1]);
+    let den = input[6].as_i64().unwrap() as f64;
+    let groups: Vec<(i64, Vec<V>)> = seg_groups(&input[2])
+        .into_iter()
+        .map(|(key, zs)| (key, zs.into_iter().map(|z| conv(z, den)).collect()))
+        .collect();
+    let qs = pfs(&input[3]);
+    let parts = input[4].as_u64().unwrap() as usize;
+    let fan = input[5].as_u64().unwrap() as usize;
+    let fanout = if fan == 0 { None } else { Some(fan) };
+    let id = |v: Vec<f64>| v;
+    let single = |m: f64| vec![m];
+    match comb {
+        "aq" => qh_entries(&ApproxQuantiles::<V>::new(qs, c), &groups, parts, fanout, &id),
+        "five" => qh_entries(&ApproxQuantiles::<V>::five_number_summary(c), &groups, parts, fanout, &id),
+        "pct" => qh_entries(&ApproxQuantiles::<V>::percentiles(c), &groups, parts, fanout, &id),
+        "median" => qh_entries(&ApproxQuantiles::<V>::median(c), &groups, parts, fanout, &id),
+        "med" => qh_entries(&ApproxMedian::<V>::new(c), &groups, parts, fanout, &single),
+        "meddef" => qh_entries(&ApproxMedian::<V>::default(), &groups, parts, fanout, &single),
+        other => panic!("bad comb {other}"),
+    }
+}
+
+fn run_qh(input: &Value) -> Value {
+    let out = match input[7].as_str().unwrap() {
+        "f64" => qh_typed::<f64>(input, &|z, den| z as f64 / den),
+        "f32" => qh_typed::<f32>(input, &|z, den| z as f32 / den as f32),
+        "i32" => qh_typed::<i32>(input, &|z, _| i32::try_from(z).expect("i32 value")),
+        "u16" => qh_typed::<u16>(input, &|z, _| u16::try_from(z).expect("u16 value")),
+        other => panic!("bad vtype {other}"),
+    };
+    ok(out)
 }
 
 // ------------------------------------------------------------------ generation
@@ -562,7 +728,236 @@ fn nfinite(vals: &[f64]) -> usize {
     vals.iter().filter(|v| v.is_finite()).count()
 }
 
+/// a case kept back to be emitted between the light ones (check.py cuts the case list into
+/// contiguous shards: the expensive compact cases must not end up in the same shard)
+struct Heavy {
+    kind: &'static str,
+    input: Value,
+    nt: bool,
+    tags: Vec<String>,
+}
+struct Out<'a, 'b> {
+    em: &'a mut Emitter<'b>,
+    heavy: std::collections::VecDeque<Heavy>,
+    stride: usize,
+    n: usize,
+}
+impl Out<'_, '_> {
+    fn case(&mut self, kind: &str, input: Value, nt: bool, tags: &[&str]) {
+        self.em.case(kind, input, nt, tags);
+        self.n += 1;
+        if self.n % self.stride == 0 {
+            self.one_heavy();
+        }
+    }
+    fn one_heavy(&mut self) -> bool {
+        match self.heavy.pop_front() {
+            Some(h) => {
+                let tags: Vec<&str> = h.tags.iter().map(String::as_str).collect();
+                self.em.case(h.kind, h.input, h.nt, &tags);
+                true
+            }
+            None => false,
+        }
+    }
+}
+
+/// one key's elements for "kh": `d` distinct u64 ids base + step*j (j < d) cut into 1..=5
+/// segments, plus `dups` segments that repeat sub-ranges
+fn kh_key_segs(rng: &mut SplitMix64, key: i64, d: u64, dup: bool) -> Vec<Value> {
+    let base = (key as u64) * (1u64 << 40) + rng.below(1 << 30);
+    let step = 1 + 2 * rng.below(500);
+    let mut segs = Vec::new();
+    let pieces = 1 + rng.below(5);
+    let mut at = 0u64;
+    for i in 0..pieces {
+        let end = if i + 1 == pieces { d } else { at + rng.below(d - at + 1) };
+        if end > at || d == 0 {
+            segs.push(json!([key, base + step * at, step, end - at, 0]));
+        }
+        at = end;
+    }
+    if dup && d > 0 {
+        for _ in 0..1 + rng.below(3) {
+            let from = rng.below(d);
+            let len = 1 + rng.below((d - from).min(d / 3 + 1));
+            segs.push(json!([key, base + step * from, step, len, 0]));
+        }
+    }
+    segs
+}
+
+fn kh_case(rng: &mut SplitMix64, k: u64, ds: &[u64], tag: &str) -> Heavy {
+    let dup = rng.chance(2, 3);
+    let mut segs: Vec<Value> = Vec::new();
+    for (i, &d) in ds.iter().enumerate() {
+        segs.extend(kh_key_segs(rng, i as i64 + 1, d, dup));
+    }
+    shuffle(rng, &mut segs); // the keys' records are interleaved
+    let parts = *rng.pick(&[0u64, 1, 2, 3, 5, 7, 16, 64]);
+    let fan = *rng.pick(&[0u64, 0, 1, 2, 3, 4]);
+    let nt = ds.iter().any(|&d| d >= 2) && (dup || parts >= 2);
+    Heavy {
+        kind: "kh",
+        input: json!([k, segs, parts, fan]),
+        nt,
+        tags: vec!["kmv".into(), "every-entry-point".into(), tag.into()],
+    }
+}
+
+fn qh_case(rng: &mut SplitMix64, c: f64, ns: &[u64], tag: &str) -> Heavy {
+    let comb = *rng.pick(&["aq", "aq", "five", "pct", "median", "med", "meddef"]);
+    let c = if comb == "meddef" { 100.0 } else { c };
+    let vtype = *rng.pick(&["f64", "f64", "f64", "f32", "i32", "u16"]);
+    let total: u64 = ns.iter().sum();
+    let den: i64 = match vtype {
+        "f64" => *rng.pick(&[1, 8, 1024]),
+        "f32" => *rng.pick(&[1, 4]),
+        _ => 1,
+    };
+    let mut segs: Vec<Value> = Vec::new();
+    for (i, &n) in ds_nonempty(ns).iter().enumerate() {
+        let key = i as i64 + 1;
+        // values: an affine sequence reduced modulo a prime (pseudo-shuffled), or a ramp up / down
+        let pieces = 1 + rng.below(4);
+        let mut at = 0u64;
+        for pc in 0..pieces {
+            let end = if pc + 1 == pieces { n } else { at + rng.below(n - at + 1) };
+            let cnt = end - at;
+            at = end;
+            if cnt == 0 && n > 0 {
+                continue;
+            }
+            let seg = match (vtype, rng.below(3)) {
+                ("u16", 0) => json!([key, rng.below(1000), 1 + rng.below(3), cnt, 0]),
+                ("u16", 1) => json!([key, 65_000, -(1 + rng.below(3) as i64), cnt, 0]),
+                ("u16", _) => json!([key, rng.below(60_000), 7919, cnt, 65_521]),
+                (_, 0) => json!([key, rng.range(-5000, 5000), 1 + rng.below(9), cnt, 0]),
+                (_, 1) => json!([key, rng.range(-5000, 500_000), -(1 + rng.below(9) as i64), cnt, 0]),
+                _ => json!([key, rng.range(-100_000, 100_000), 7919 + 2 * rng.below(50), cnt, 1_000_003]),
+            };
+            segs.push(seg);
+        }
+    }
+    shuffle(rng, &mut segs);
+    let gm = draw_mode(rng);
+    let qs = if comb == "aq" { arrange(rng, qs_short(), gm) } else { Vec::new() };
+    let parts = *rng.pick(&[0u64, 1, 2, 3, 5, 8]);
+    let fan = *rng.pick(&[0u64, 0, 2, 3]);
+    Heavy {
+        kind: "qh",
+        input: json!([comb, fj(c), segs, fjs(&qs), parts, fan, den, vtype]),
+        nt: total >= 2,
+        tags: vec!["t-digest".into(), "every-entry-point".into(), comb.into(), vtype.into(), tag.into()],
+    }
+}
+fn ds_nonempty(ns: &[u64]) -> Vec<u64> {
+    ns.to_vec()
+}
+
+/// the compact big cases: every entry point x sketch size across the powers of two x input size
+/// just below / at / above the size thresholds
+fn gen_heavy(seed: u64, tier: Tier) -> Vec<Heavy> {
+    let thorough = tier == Tier::Thorough;
+    let mut rng = SplitMix64::new(seed ^ 0xC15_BEEF);
+    let mut kh: Vec<Heavy> = Vec::new();
+    let mut ks: Vec<u64> = vec![0, 1, 4, 5, 8, 16, 20, 32, 64, 128, 256, 512, 1024, 2048, 4096, 8192];
+    if thorough {
+        ks.extend([16_384, 65_536]);
+    }
+    for &k in &ks {
+        let kk = k.max(4);
+        // one key: d just below / at / above the sketch size (the global entry points see exactly d)
+        for d in [kk - 1, kk, kk + 1] {
+            kh.push(kh_case(&mut rng, k, &[d], "d-around-k"));
+        }
+        // three keys at once, interleaved
+        kh.push(kh_case(&mut rng, k, &[kk - 1, kk, kk + 1], "keys-around-k"));
+        kh.push(kh_case(&mut rng, k, &[kk / 2, kk / 2 + kk / 4, 2 * kk], "keys-half-to-double-k"));
+        if kk >= 32 {
+            // every smaller power of two as a distinct count below k (a clamp of the sketch size
+            // at any of them shows as an inexact count)
+            let mut p2 = 16u64;
+            let mut ds = Vec::new();
+            while p2 < kk {
+                ds.push(p2 + rng.below(p2)); // p2 <= d < 2*p2 <= k
+                p2 *= 2;
+            }
+            for ch in ds.chunks(4) {
+                kh.push(kh_case(&mut rng, k, ch, "d-between-powers-of-two-below-k"));
+            }
+        }
+    }
+    // unusual sketch sizes
+    let reps = if thorough { 300 } else { 60 };
+    for _ in 0..reps {
+        let k = *rng.pick(&[2u64, 3, 6, 10, 100, 1000, 1023, 1025, 1500, 3000, 5000, 1 << 20, 1 << 40,
+                            (1 << 61) - 1]);
+        let kk = k.max(4).min(6000);
+        let nkeys = 1 + rng.below(4) as usize;
+        let mut ds: Vec<u64> = Vec::new();
+        for _ in 0..nkeys {
+            let d = match rng.below(6) {
+                0 => kk - 1,
+                1 => kk,
+                2 => kk + 1,
+                3 => rng.below(kk),
+                4 => kk / 2,
+                _ => kk + rng.below(kk / 2 + 1),
+            };
+            ds.push(if k > 6000 { d.min(1 + rng.below(3000)) } else { d });
+        }
+        kh.push(kh_case(&mut rng, k, &ds, "unusual-k"));
+    }
+
+    let mut qh: Vec<Heavy> = Vec::new();
+    let mut cs: Vec<u64> = vec![1, 2, 4, 8, 16, 32, 64, 128, 256, 512, 1024];
+    if thorough {
+        cs.extend([2048, 4096]);
+    }
+    for &c in &cs {
+        let cf = c as f64;
+        // add() compresses when the buffer exceeds 2c
+        for n in [2 * c - 1, 2 * c, 2 * c + 1, 2 * c + 2] {
+            qh.push(qh_case(&mut rng, cf, &[n], "n-around-2c"));
+        }
+        qh.push(qh_case(&mut rng, cf, &[c, c + 1], "n-around-c"));
+        if c <= 256 {
+            qh.push(qh_case(&mut rng, cf, &[2 * c - 1, 2 * c, 2 * c + 2], "keys-around-2c"));
+            qh.push(qh_case(&mut rng, cf, &[4 * c + 3, 3], "n-past-4c"));
+        }
+    }
+    let reps = if thorough { 200 } else { 40 };
+    for _ in 0..reps {
+        let c = *rng.pick(&[0.5, 1.0, 3.0, 5.0, 10.0, 20.0, 100.0, 100.0, 1000.0]);
+        let nkeys = 1 + rng.below(3) as usize;
+        let ns: Vec<u64> = (0..nkeys).map(|_| if rng.chance(1, 4) { rng.below(4) } else { rng.below(150) }).collect();
+        qh.push(qh_case(&mut rng, c, &ns, "random"));
+    }
+    // interleave the two families
+    let mut all = Vec::new();
+    let (mut a, mut b) = (kh.into_iter(), qh.into_iter());
+    loop {
+        let (x, y) = (a.next(), b.next());
+        if x.is_none() && y.is_none() {
+            break;
+        }
+        all.extend(x);
+        all.extend(y);
+    }
+    all
+}
+
 fn generate(seed: u64, tier: Tier, em: &mut Emitter) {
+    let heavy: std::collections::VecDeque<Heavy> = gen_heavy(seed, tier).into();
+    let expected_light = if tier == Tier::Thorough { 15_000 } else { 2_900 };
+    let stride = (expected_light / heavy.len().max(1)).max(1);
+    let mut out = Out { em, heavy, stride, n: 0 };
+    gen_light(seed, tier, &mut out);
+    while out.one_heavy() {}
+}
+
+fn gen_light(seed: u64, tier: Tier, em: &mut Out) {
     let thorough = tier == Tier::Thorough;
     let comps = [10.0, 20.0, 100.0, 1000.0];
     let small_comps = [0.5, 1.0, 2.0, 3.0, 5.0];
